@@ -69,6 +69,7 @@ deriving Inhabited
 structure World where
   files : List (Nat × WFile)
   stores : List (Nat × Store)
+  fault : Option (Nat × Nat × Int) := none   -- armed fault: file, k-th call, torn (< 0: outright)
 deriving Inhabited
 
 def assocGet {α : Type} (k : Nat) : List (Nat × α) → Option α
@@ -164,7 +165,7 @@ def putColl (w : World) (s : Nat) (st : Store) (c : Coll) : World :=
   { w with stores := assocSet s { st with colls := collsSet c st.colls } w.stores }
 
 def stepTokens (w : World) : List String → World × String
-  | ["reset"] => (⟨[], []⟩, "ok")
+  | ["reset"] => ({ files := [], stores := [] }, "ok")
   | ["mem", s] => match s.toNat? with
     | some s => ({ w with stores := assocSet s ⟨none, 0, [], false⟩ w.stores }, "ok")
     | none => (w, "bad-op")
@@ -182,8 +183,10 @@ def stepTokens (w : World) : List String → World × String
   | ["refcheck"] => (w, "ok")
   | ["refbalance"] => (w, "ok")
   | ["churn", _] => (w, "ok")
-  | ["fault", _, _, _] => (w, "ok")
-  | ["unfault", _] => (w, "ok")
+  | ["fault", f, k, t] => match f.toNat?, k.toNat?, t.toInt? with
+    | some f, some k, some t => ({ w with fault := some (f, k, t) }, "ok")
+    | _, _, _ => (w, "bad-op")
+  | ["unfault", _] => ({ w with fault := none }, "ok")
   | ["opendump", f] => match f.toNat? with
     | some f => (w, showOpen (openStore f (w.file f).bytes cmpOfName))
     | none => (w, "bad-op")
@@ -287,9 +290,15 @@ def stepTokens (w : World) : List String → World × String
         | none => (w, "err-nofile")
         | some f =>
           let wf := w.file f
-          let (cs, fs) := flushStore st.colls ⟨wf.bytes, st.size, []⟩
-          ({ files := assocSet f (recordWrites wf wf.bytes fs) w.files,
-             stores := assocSet s { st with colls := cs, size := fs.size } w.stores }, "ok"))
+          let plan : Option (Nat × Nat) := match w.fault with
+            | some (ff, k, t) => if ff = f then some (k, if t < 0 then 0 else t.toNat) else none
+            | none => none
+          let fs0 : FileSt := { bytes := wf.bytes, size := st.size, log := [],
+                                failAt := plan.map (·.1), torn := (plan.map (·.2)).getD 0 }
+          let (cs, fs) := flushStore st.colls fs0
+          ({ w with files := assocSet f (recordWrites wf wf.bytes fs) w.files,
+                    stores := assocSet s { st with colls := cs, size := fs.size } w.stores },
+           if fs.failed then "err-io" else "ok"))
     | none => (w, "bad-op")
   | ["snap", s, s2] => match s.toNat?, s2.toNat? with
     | some s, some s2 => (match assocGet s w.stores with
@@ -309,7 +318,7 @@ def stepTokens (w : World) : List String → World × String
           | some (st', bytes') =>
             let wf' : WFile :=
               if st.readOnly then wf else ⟨bytes', wf.hist ++ [.inr st'.size]⟩
-            ({ files := assocSet f wf' w.files, stores := assocSet s st' w.stores }, "ok"))
+            ({ w with files := assocSet f wf' w.files, stores := assocSet s st' w.stores }, "ok"))
     | none => (w, "bad-op")
   | ["copy", s, s2, f2, fe] => match s.toNat?, s2.toNat?, f2.toNat?, fe.toInt? with
     | some s, some s2, some f2, some fe => (match assocGet s w.stores with
@@ -317,8 +326,8 @@ def stepTokens (w : World) : List String → World × String
       | some st =>
         let (cs, fs) := copyTo st.colls fe
         let wf := recordWrites ⟨[], []⟩ [] fs
-        ({ files := assocSet f2 wf w.files,
-           stores := assocSet s2 ⟨some f2, fs.size, cs, false⟩ w.stores }, "ok"))
+        ({ w with files := assocSet f2 wf w.files,
+                  stores := assocSet s2 ⟨some f2, fs.size, cs, false⟩ w.stores }, "ok"))
     | _, _, _, _ => (w, "bad-op")
   | ["visit", s, n, dir, t, wv, stop] =>
     match s.toNat?, parseBytes n, parseBytes t, stop.toInt? with
@@ -377,6 +386,10 @@ def stepTokens2 (w : World) (ts : List String) : World × String :=
     (match op, rest with
      | "revert", [s] => (match s.toNat? with
         | some s => ({ w with stores := assocDel s w.stores }, "err-io")
+        | none => (w, "bad-op"))
+     | "flush", [_] => stepTokens w (op :: rest)   -- Flush only writes: the armed fault is replayed
+     | "copy", [_, _, f2, _] => (match f2.toNat? with
+        | some f2 => ({ w with files := assocDel f2 w.files }, "err-io")
         | none => (w, "bad-op"))
      | _, _ => (w, "err-io"))
   | _ => stepTokens w ts
